@@ -229,7 +229,10 @@ def revJson : C17Rec.REv → Json
   | .closeOk => Json.arr [Json.str "close", Json.str "ok"]
 
 /-- does the command finish (close the device stream of) a recording stream that is NOT the oldest
-    one still in `_recordings`?  (`list.remove` then has to compare two `RecStream`s: finding D22) -/
+    one still in `_recordings`?  (`list.remove` would then have to compare two `RecStream`s with `==`:
+    finding D26, repaired in /repo by c60d4c5 — `recording_finished` removes by identity, which is what
+    `Model/C17Rec.lean` (`List.erase` on indices) does.  The flag only NAMES a regression of that
+    repair in the signature of the violation; it excuses nothing: the tie compares every call.) -/
 def finishesLater (s : C17Rec.RState) (c : C17Rec.RCmd) : Bool :=
   let s' := C17Rec.stepCmd s c
   match c with
